@@ -12,7 +12,7 @@ EXPLANATION = (
     "Range-owner typestate on the MIR (configs F0+F1). The tracked owners are the crate's types whose Drop impl releases a range of a storage "
     "described by their own fields (derived, rule C05.R: ArrayBuilder / IntrusiveArrayBuilder release [0, position), ArrayConsumer [position, N), "
     "GenericArrayIter [index, index_back); the storage field itself has no drop glue). Rule C05.X (exclude before destroy): in every `&mut self` method of "
-    "such a type, at each drop_in_place(range) call - the only place an element destructor runs while the owner stays alive - the fields stored so far must "
+    "such a type (C05.Y: and at every call that can unwind after an element was read out of the storage, that slot must already be excluded from the claimed range), at each drop_in_place(range) call - the only place an element destructor runs while the owner stays alive - the fields stored so far must "
     "make the owner's claimed range provably disjoint from the range being destroyed, so that if a destructor unwinds the owner's own Drop cannot release those "
     "elements again. In Drop::drop itself and in by-value methods the owner cannot be dropped again (checked: the storage field has no drop glue, and the by-value "
     "methods only call &mut self primitives). A sweep reports any other drop_in_place / generic drop reached while a duplicated element is unaccounted (shared with C04).")
@@ -165,6 +165,37 @@ def check_exclude_before_destroy(ctx, cfg):
                 ctx.ob(rule, "%s#drop_in_place#%d" % (b["key"], i), ok, det, at=c.at, cfg=cfg)
                 ctx.sample({"rule": rule, "fn": b["key"], "cfg": cfg, "detail": det})
                 n += 1
+            # C05.Y: an element read out of the owner's storage (a bitwise duplicate) must already be excluded from the owner's claimed range
+            # at every later call that can unwind - otherwise the unwinding drop of the duplicate and the owner's Drop release it twice
+            cl_ = Classifier(db)
+            sb = storage_base(tail, info)
+            a_y = ctx.analysis_inl(cfg, b["key"], split=True)  # tree-shaped where loop-free: "read before" is dominance on each path
+            reads = [c for c in a_y.calls if c.fn in ("core::ptr::read", "core::ptr::read_unaligned") and c.args[0][0] == "P" and c.args[0][1] == sb]
+            if reads:
+                foreign = [c for c in a_y.calls if cl_.classify(c, b) == "foreign" and not getattr(c, "no_effects", False)]
+                verdicts = {}
+                for r_ in reads:
+                    off = r_.args[0][2]
+                    bad = []
+                    for f_ in foreign:
+                        if f_ is r_ or not (a_y.dominates(r_.bb, f_.bb) and f_.bb != r_.bb):
+                            continue
+                        fld = owner_range(a_y, db, st["def"], info, f_.mem, ("arg", 1))
+                        lo, hi = DROP_SPEC[tail](fld, N)
+                        if lo is None or hi is None:
+                            bad.append("%s (claimed range unknown)" % f_.fn.split("::")[-1])
+                            continue
+                        pf = a_y.poly_facts(f_.facts)
+                        out_ = prove((">=", lo * S - off - S), pf) or prove((">=", off - hi * S), pf)
+                        if not out_:
+                            bad.append("%s with the owner still claiming [%r, %r)" % (f_.fn.split("::")[-1], lo, hi))
+                    site = (r_.at, a_y.blocks[r_.bb].get("split_of", r_.bb))
+                    prev = verdicts.get(site, (True, [], off, r_.at))
+                    verdicts[site] = (prev[0] and not bad, prev[1] + bad, off, r_.at)
+                for j, (site, (ok_, bad, off, at_)) in enumerate(sorted(verdicts.items(), key=lambda kv: repr(kv[0]))):
+                    ctx.ob("C05.Y", "%s#read#%d" % (b["key"], j), ok_,
+                           ("the element read out at byte %r is excluded from the owner's claimed range before every later call that can unwind" % (off,)) if ok_ else
+                           ("the element read out at byte %r is still claimed by the owner when a later call can unwind (dropped twice on unwind): %s" % (off, "; ".join(sorted(set(bad))))), at=at_, cfg=cfg)
         elif by_value and dips:
             for i, c in enumerate(dips):
                 ctx.ob(rule, "%s#drop_in_place#%d" % (b["key"], i), UNKNOWN, "drop_in_place inside a by-value method: not a recognised idiom", at=c.at, cfg=cfg, frozen=False)
